@@ -179,3 +179,32 @@ def l2(run, graphs, num, depth, seed, *, kinds, flavour='plain'):
             run.sample({'l2_behaviour': [dict(st['last']) for _, st in behs[0]][:10], 'graph': g}, limit=8)
     run.add(l2_commands_replayed=total)
     return total
+
+
+def l2_interleaved(run, graphs, num, depth, seed, *, kinds, flavour='plain'):
+    """two client processes: TLC behaviours of overlapping snapshots (with crashes) replayed step by step on two real processes"""
+    total = 0
+    for g in graphs:
+        text = cfg(g, procs='{1, 2}', cids='{1, 2, 3}', maxsnaps=3, maxfaults=1, sim=True).replace('CHECK_DEADLOCK FALSE', 'CONSTRAINT OnlySnapshots\nCHECK_DEADLOCK FALSE')
+        behs, res = tlc.simulate('Repo', 'simi_%s.cfg' % g, num=num, depth=depth, seed=seed, cfg_text=text)
+        for i, b in enumerate(behs):
+            with harness.scratch() as d:
+                r = repodrv.InterleavedReplayer(g, d, seed=seed * 1000 + i, flavour=flavour)
+                n = r.run(b)
+                total += n
+                run.case(('l2i', g, seed, i), nontrivial=n > 3)
+                for pr in r.problems:
+                    if 'unreplayable' in pr['kinds']:
+                        run.add(unreplayable=1)
+                        continue
+                    hit = [k for k in pr['kinds'] if k in kinds]
+                    if not hit:
+                        for k in pr['kinds']:
+                            run.note_drift('L2:' + k)
+                        continue
+                    run.violation('L2i:' + hit[0], 'any', dict(pr, graph=g, behaviour=[st['last'] for _, st in b][:40]),
+                                  replay={'driver': 'l2_interleaved', 'graph': g, 'seed': seed, 'index': i})
+        if behs:
+            run.sample({'two_process_behaviour': [dict(st['last']) for _, st in behs[0]][:12], 'graph': g}, limit=8)
+    run.add(l2_interleaved_steps=total)
+    return total
